@@ -232,6 +232,15 @@ func VerifC04_FullStackFault() {
 	}
 	evs := w.v.drain()
 	verif_Assert(len(evs) == 1 && evs[0].Err == nil && evs[0].Cid == w.chain[0], "the retried sync emits the one success notification")
+	// the retried sync reports the whole chain exactly once, newest to oldest, and
+	// counts it — nothing left over from the failed attempt is reported again
+	verif_Assert(len(w.v.log) == n, "the retried sync reports every block of the chain exactly once")
+	for i := 0; i < n && i < len(w.v.log); i++ {
+		verif_Assert(w.v.log[i] == w.chain[i], "newest to oldest")
+	}
+	if len(evs) == 1 {
+		verif_Assert(evs[0].Count == n, "and its notification counts exactly those blocks")
+	}
 }
 
 // C01, whole stack: the REAL Subscriber.SyncAdChain (segmented loop, selector
